@@ -684,7 +684,12 @@ String String::toUpperCase() const
 	for (Enumerator e = all(); e; ++e)
 	{
 		int code = *e;
-		if (code < 1415)
+		if (code == 0) // undecodable bytes (truncated sequence or an encoding of NUL) are copied through
+		{
+			for (int i = 0; i < e.n; i++)
+				*p++ = e.u[i];
+		}
+		else if (code < 1415)
 	{
 		char c1 = toUppercaseU8[code*2];
 		char c2 = toUppercaseU8[code*2 + 1];
@@ -718,7 +723,12 @@ String String::toLowerCase() const
 	for (Enumerator e = all(); e; ++e)
 	{
 		int  code = *e;
-		if (code < 1415)
+		if (code == 0) // undecodable bytes (truncated sequence or an encoding of NUL) are copied through
+		{
+			for (int i = 0; i < e.n; i++)
+				*p++ = e.u[i];
+		}
+		else if (code < 1415)
 	{
 		char c1 = toLowercaseU8[code*2];
 		char c2 = toLowercaseU8[code*2 + 1];
@@ -757,7 +767,12 @@ bool String::equalsNocase(const String& s) const
 	{
 		int code1 = *e1, code2 = *e2;
 		
-		if (code1 > 1415 || code2 > 1415)
+		if (code1 == 0 || code2 == 0) // undecodable bytes are compared as they are
+		{
+			if (code1 != code2 || e1.n != e2.n || memcmp(e1.u, e2.u, e1.n) != 0)
+				return false;
+		}
+		else if (code1 > 1415 || code2 > 1415)
 		{
 			if (code1 != code2)
 				return false;
